@@ -33,6 +33,8 @@ type HarnessCfg struct {
 	Variant  string                    `json:"variant"` // load variant name (default "")
 	TimeoutMs int                      `json:"solver_timeout_ms"`
 	InlineGo bool                      `json:"inline_go"`
+	Int      bool                      `json:"int"`       // add the cvc5 --solve-bv-as-int back end to the portfolio (div/mod by constants)
+	QuickMs  int                       `json:"quick_ms"`  // time slice of the persistent primary solver before the portfolio
 }
 
 type Variant struct {
@@ -324,6 +326,13 @@ func (r *Run) runHarness(prog *ssa.Program, h HarnessCfg) *HResult {
 	defer solver.Close()
 	if h.TimeoutMs > 0 {
 		solver.TimeoutMs = h.TimeoutMs
+	}
+	if h.Int {
+		solver.RaceInt = true
+		solver.QuickMs = 400
+	}
+	if h.QuickMs > 0 {
+		solver.QuickMs = h.QuickMs
 	}
 	if r.tier == "thorough" {
 		cr := smt.Z3
